@@ -20,7 +20,11 @@ RULE = (
     "bytewise, payload after inflate); group dispatcher picks the same class/value; reference decoder agrees; "
     "obfuscation == independent rotl-per-word reference both ways; DataConnection.encode/decode_message_data round "
     "trip. Non-trivial = payload non-empty and not all zero bytes (message cases) or payload longer than 4 bytes "
-    "(obfuscation cases); distinct = distinct case document."
+    "(obfuscation cases); distinct = distinct case document. (c) raw frames: the 299 hand-written vectors through the "
+    "metamorphic oracle 'if the bytes decode to m then decode(encode(m)) == m and encode(decode(encode(m))) == encode(m)'; "
+    "thorough additionally runs atheris (libFuzzer, coverage-guided) on each of the five dispatchers with that oracle, "
+    "from an empty corpus and from the vectors (-runs, -seed=VERIF_SEED, fresh corpus directory); findings are replayed "
+    "without atheris."
 )
 ASSUMPTIONS = [
     "pinned/layout.json (extracted once from snapshot ddacc78, reviewed against MESSAGES.rst and validated against "
@@ -378,8 +382,58 @@ def run_obf_case(case, res: CaseResult):
         res.label('obf>128')
 
 
+FUZZ_TARGETS = [('server', 'Response'), ('server', 'Request'), ('peer', 'Request'), ('distributed', 'Request'),
+                ('peer_init', 'Request')]
+
+
+def run_raw_case(case, res: CaseResult):
+    """Replay of a coverage-guided fuzzing finding: raw frame body, metamorphic oracle (no atheris needed)."""
+    import struct
+    group, kind = case.get('group'), case.get('kind')
+    if (group, kind) not in FUZZ_TARGETS:
+        return
+    try:
+        body = bytes.fromhex(case.get('hex', ''))[:4096]
+    except ValueError:
+        return
+    frame = struct.pack('<I', len(body)) + body
+    res.label('raw:' + group)
+    try:
+        m = _dispatch_live(group, kind, frame)
+    except Exception:
+        res.label('raw:rejected')
+        return
+    name = type(m).__qualname__
+    try:
+        e1 = m.serialize()
+    except struct.error as exc:
+        if group != 'peer_init':
+            res.violate(f'C01/raw:reencode-raises:{name}', repr(exc))
+        return
+    except Exception as exc:
+        res.violate(f'C01/raw:reencode-raises:{name}:{type(exc).__name__}', repr(exc))
+        return
+    try:
+        m2 = _dispatch_live(group, kind, e1)
+    except Exception as exc:
+        res.violate(f'C01/raw:decode-of-own-encoding-raises:{name}', repr(exc))
+        return
+    if m2 != m or type(m2) is not type(m):
+        res.violate(f'C01/raw:decode-encode-not-identity:{name}', f'{m!r:.300} vs {m2!r:.300}')
+        return
+    if not wire_ref.BY_KEY.get(msgbridge.key_of(m), {}).get('compressed'):
+        if m2.serialize() != e1:
+            res.violate(f'C01/raw:reencode-not-stable:{name}', '')
+        if struct.unpack_from('<I', e1, 0)[0] != len(e1) - 4:
+            res.violate(f'C01/raw:length-prefix:{name}', '')
+    res.nontrivial = True
+
+
 def run_case(case) -> CaseResult:
     res = CaseResult()
+    if case.get('t') == 'raw':
+        run_raw_case(case, res)
+        return res
     if case.get('t') == 'obf':
         run_obf_case(case, res)
     elif case.get('t') == 'msg' and isinstance(case.get('values'), dict):
@@ -439,6 +493,78 @@ def run_shard(ctx):
         ctx.explore(message_case(key), per_class, salt=i)
     ctx.explore(obf_case(), n_obf, salt=9999)
     ctx.extra['classes_covered'] = len(mine)
+    _replay_vectors_raw(ctx)
+    if ctx.tier == 'thorough' and ctx.shard < len(FUZZ_TARGETS):
+        _fuzz_tier(ctx)
+
+
+def _vector_bodies(group, kind):
+    import json
+    import os
+    path = os.path.join(os.path.dirname(os.path.dirname(os.path.abspath(__file__))), 'pinned', 'vectors.json')
+    out = []
+    for v in json.load(open(path)):
+        g, _, k = v['key'].split(':')
+        if (g, k) == (group, kind):
+            out.append(bytes.fromhex(v['hex'])[4:])
+    return out
+
+
+def _replay_vectors_raw(ctx):
+    """The hand-written vectors as raw frames through the metamorphic oracle (seconds; also the fuzz seed corpus)."""
+    for i, (group, kind) in enumerate(FUZZ_TARGETS):
+        if i % ctx.nshards != ctx.shard:
+            continue
+        for body in _vector_bodies(group, kind):
+            ctx.run({'t': 'raw', 'group': group, 'kind': kind, 'hex': body.hex()})
+
+
+def _fuzz_tier(ctx):
+    """atheris / libFuzzer on one dispatcher per shard: once from an empty corpus, once from the unit-test vectors."""
+    import os
+    import shutil
+    import subprocess
+    import sys
+    import tempfile
+    group, kind = FUZZ_TARGETS[ctx.shard]
+    verif = os.path.dirname(os.path.dirname(os.path.abspath(__file__)))
+    runs = int(os.environ.get('VFW_FUZZ_RUNS', '1500000'))
+    tmp = tempfile.mkdtemp(prefix='vfw-fuzz-')
+    executed = 0
+    try:
+        for variant in ('empty', 'vectors'):
+            art = os.path.join(tmp, 'art-' + variant)
+            corpus = os.path.join(tmp, 'corpus-' + variant)
+            os.makedirs(corpus)
+            if variant == 'vectors':
+                for i, body in enumerate(_vector_bodies(group, kind)):
+                    with open(os.path.join(corpus, 'v%03d' % i), 'wb') as fh:
+                        fh.write(body)
+            cmd = [sys.executable, '-m', 'vfw.fuzz_c01', group, kind, str(runs // 2), str(ctx.base_seed), art, corpus]
+            try:
+                proc = subprocess.run(cmd, cwd=verif, capture_output=True, text=True,
+                                      timeout=max(60, ctx.deadline - __import__('time').time()))
+                tail = (proc.stderr or '')[-2000:]
+            except subprocess.TimeoutExpired:
+                ctx.extra['fuzz_timeouts'] = ctx.extra.get('fuzz_timeouts', 0) + 1
+                continue
+            if 'No module named' in tail and 'atheris' in tail:
+                ctx.extra['fuzz_skipped_no_atheris'] = 1
+                return
+            executed += runs // 2
+            if os.path.isdir(art):
+                for name in sorted(os.listdir(art)):
+                    with open(os.path.join(art, name), 'rb') as fh:
+                        body = fh.read()
+                    r = ctx.run({'t': 'raw', 'group': group, 'kind': kind, 'hex': body.hex()})
+                    if r is not None and not r.violations:
+                        # libFuzzer stopped on something our replay does not reproduce: report it as such
+                        r2 = CaseResult()
+                        r2.violate(f'C01/raw:fuzzer-artifact-not-reproduced:{group}', tail[-300:])
+                        ctx.record({'t': 'raw', 'group': group, 'kind': kind, 'hex': body.hex()}, r2)
+        ctx.extra['fuzz_executions'] = ctx.extra.get('fuzz_executions', 0) + executed
+    finally:
+        shutil.rmtree(tmp, ignore_errors=True)
 
 
 MANIFEST_ENTRY = {
